@@ -1,101 +1,35 @@
 //! Developer experiments (`--prop X-exp`): not a registered check.
 
-use std::collections::BTreeSet;
-
 use hydro_lang::prelude::*;
 
 use crate::proglevel::*;
 
 pub fn run() {
-    {
-        let mut flow = FlowBuilder::new();
-        let node = flow.process::<()>();
-        let (send, out) = vsim::progs::snapshot_count(&node);
-        let c = compile(flow.sim()).unwrap();
-        let mut outs = BTreeSet::new();
-        let n = sim_guard(|| {
-            c.exhaustive(async || {
-                send.send_many([7, 8, 9]);
-                let all: Vec<usize> = out.collect().await;
-                outs.insert(all);
+    let mut flow = FlowBuilder::new();
+    let proposers = flow.cluster::<hydro_test::cluster::paxos::Proposer>();
+    let acceptors = flow.cluster::<hydro_test::cluster::paxos::Acceptor>();
+    let ports = vsim::progs::paxos_prog(&proposers, &acceptors);
+    let t0 = std::time::Instant::now();
+    let c = compile(
+        flow.sim()
+            .skip_consistency_assertions()
+            .with_cluster_size(&proposers, 2)
+            .with_cluster_size(&acceptors, 3),
+    );
+    println!("paxos compile: {:?} in {:?}", c.as_ref().map(|_| ()), t0.elapsed());
+    let Ok(c) = c else { return };
+    let mut out = String::new();
+    let r = sim_guard(|| {
+        c.fuzz_repro(vec![1, 2, 3, 4, 5, 6, 7, 8], async |inst| {
+            inst.run_with_scheduler_and_logger(std::io::sink(), async {
+                ports.payloads.send(0, 7);
+                ports.payloads.send(1, 8);
+                let a: Vec<(usize, Option<u32>)> = ports.decided.collect_sorted(0).await;
+                let b: Vec<(usize, Option<u32>)> = ports.decided.collect_sorted(1).await;
+                out = format!("{a:?} {b:?}");
             })
-        });
-        println!("snapshot_count: {n:?} {outs:?}");
-    }
-    {
-        let mut flow = FlowBuilder::new();
-        let node = flow.process::<()>();
-        let (send, out) = vsim::progs::batch_unordered(&node);
-        let c = compile(flow.sim()).unwrap();
-        let mut outs = BTreeSet::new();
-        let n = sim_guard(|| {
-            c.exhaustive(async || {
-                send.send_many_unordered([1, 2, 3]);
-                let all: Vec<Vec<i32>> = out.collect().await;
-                outs.insert(all);
-            })
-        });
-        println!("batch_unordered: {n:?} {} {outs:?}", outs.len());
-    }
-    {
-        let mut flow = FlowBuilder::new();
-        let node = flow.process::<()>();
-        let (send, out) = vsim::progs::sliced_batch_count(&node);
-        let c = compile(flow.sim()).unwrap();
-        let mut outs = BTreeSet::new();
-        let n = sim_guard(|| {
-            c.exhaustive(async || {
-                send.send_many([1, 2, 3]);
-                let all: Vec<(Vec<i32>, usize)> = out.collect().await;
-                outs.insert(all);
-            })
-        });
-        println!("sliced_batch_count: {n:?} {} {outs:?}", outs.len());
-    }
-    {
-        let mut flow = FlowBuilder::new();
-        let node = flow.process::<()>();
-        let (send, out) = vsim::progs::fold_unordered_snapshot(&node);
-        let c = compile(flow.sim()).unwrap();
-        let mut outs = BTreeSet::new();
-        let n = sim_guard(|| {
-            c.exhaustive(async || {
-                send.send_many_unordered([1, 2, 4]);
-                let all: Vec<i32> = out.collect().await;
-                outs.insert(all);
-            })
-        });
-        println!("fold_unordered_snapshot: {n:?} {} {outs:?}", outs.len());
-    }
-    {
-        let mut flow = FlowBuilder::new();
-        let node = flow.process::<()>();
-        let (send, send_b, out) = vsim::progs::fold_snapshot_with_batch(&node);
-        let c = compile(flow.sim()).unwrap();
-        let mut outs = BTreeSet::new();
-        let n = sim_guard(|| {
-            c.exhaustive(async || {
-                send.send_many_unordered([1, 2]);
-                send_b.send_many([10, 20]);
-                let all: Vec<(Vec<i32>, i32)> = out.collect().await;
-                outs.insert(all);
-            })
-        });
-        println!("fold_snapshot_with_batch: {n:?} {} {outs:?}", outs.len());
-    }
-    {
-        let mut flow = FlowBuilder::new();
-        let node = flow.process::<()>();
-        let (send, out) = vsim::progs::sliced_state(&node);
-        let c = compile(flow.sim()).unwrap();
-        let mut outs = BTreeSet::new();
-        let n = sim_guard(|| {
-            c.exhaustive(async || {
-                send.send_many([1, 2, 3]);
-                let all: Vec<(i32, Vec<i32>, i32)> = out.collect().await;
-                outs.insert(all);
-            })
-        });
-        println!("sliced_state: {n:?} {} {outs:?}", outs.len());
-    }
+            .await;
+        })
+    });
+    println!("paxos run: {r:?} {out}");
 }
